@@ -695,12 +695,15 @@ Renumber(d, tok) ==
 
 (* ------------------------------ writer reuse ------------------------------------------------------------------ *)
 (* "Every scenario ... writing it and reading it back yields the same content" includes a scenario that was EDITED     *)
-(* after an earlier write with the same writer object.  A case may carry  reuse = <<[edit, w2]>> :                  *)
+(* after an earlier write with the same writer object.  A case may carry  reuse = <<[route, edit, w2, first]>> :     *)
 (*   write#1 (write_to_file) -> the scenario / planning problem set is edited in place -> write#2 with the SAME      *)
 (*   writer (w2 = "full": write_to_file, "scenario": write_scenario_to_file) -> write#2 is read back.                 *)
 (* EditOf is the descriptor of the edited objects, WrittenBy what write#2 is asked to write (no planning problems for *)
 (* a scenario-only file).  Ids of added objects are free in every id table of Renumber.                              *)
-EditTokens == <<"add_network", "remove_obstacle", "translate", "light_offset", "add_pp">>
+(* READER reuse (route = "reader"): reader R is created on write#1 and opened once (first = "open" / "open_lanelet_network"), *)
+(* the edited scenario is written to the SAME path by a fresh writer, R.open() again must yield the edited scenario; *)
+(* edit "none": nothing is rewritten, the second open() must agree with the file.                                     *)
+EditTokens == <<"add_network", "remove_obstacle", "translate", "light_offset", "add_pp", "none">>
 EditSignId(cid) == LET ok == {i \in DOMAIN SignIdT : SignIdT[i].c \in CountryClass[cid] /\ SignIdT[i].v \in EnumTrafficSignID /\ SignIdT[i].pb}
                    IN SignIdT[CHOOSE i \in ok : \A j \in ok : i <= j]
 NewLanelet == [id |-> 5, nv |-> 2, geo |-> "one", lml |-> "SOLID", lmr |-> "DASHED", pred |-> <<>>, succ |-> <<>>, adjL |-> <<>>, adjR |-> <<>>,
@@ -725,11 +728,13 @@ Edit(d, tok) ==
                                         !.lights = SortById(@ \o <<NewLight>>)]
     [] tok = "remove_obstacle" -> [d EXCEPT !.obstacles = Tail(@)]
     [] tok = "translate" -> d                  \* lanelet network moved by a lattice vector: same tokens, other coordinates
+    [] tok = "none" -> d
     [] tok = "light_offset" -> [d EXCEPT !.lights[1].off = @ + 2]
     [] tok = "add_pp" -> [d EXCEPT !.pps = SortById(@ \o <<NewPP>>)]
 EditOf(d, ru) == IF ru = <<>> THEN d ELSE Edit(d, ru[1].edit)
 WrittenBy(d, ru) == IF ru # <<>> /\ ru[1].w2 = "scenario" THEN [EditOf(d, ru) EXCEPT !.pps = <<>>] ELSE EditOf(d, ru)
-ReuseOK(d, ru) == ru = <<>> \/ (EditApplicable(d, ru[1].edit) /\ ru[1].w2 \in {"full", "scenario"} /\ WellFormed(EditOf(d, ru)))
+ReuseOK(d, ru) == ru = <<>> \/ (/\ EditApplicable(d, ru[1].edit) /\ ru[1].w2 \in {"full", "scenario"} /\ WellFormed(EditOf(d, ru))
+                                 /\ ru[1].route \in {"writer", "reader"} /\ ru[1].first \in {"open", "open_lanelet_network"})
 
 (* ------------------------------ C03: the document the contract demands ------------------------------------------- *)
 (* AbstractDoc(d): element entries (Xsd2020a) of an XML document that carries every XML-carried leaf of d, children in *)
